@@ -530,6 +530,35 @@ func checkC14FaultOutcome(c C14Case, base, flt *sessRun, fs *simos.FS, info *cas
 		if res.Code != 2 {
 			return viol14("fault-write", p, e, "writing the -o file failed with %s but exit status was %d, contract says 2 on any error; argv=%q", kind, res.Code, p.Argv), log, info
 		}
+	case simos.FStdoutENOSPC, simos.FStdoutEIO:
+		// stdout is redirected to a disk that is full or failing (or to
+		// /dev/full): the bytes the user asked for did not arrive, so a run that
+		// would have succeeded must not report success. No opinion on -version,
+		// -help and on runs that fail anyway (what a failing process prints on
+		// stdout is unspecified).
+		if fo := parseArgv(p.Argv); fo.version || fo.help || base.Res[i].Code == 2 {
+			return nil, log, info
+		}
+		stats.probe("stdout-write-failed")
+		if res.Code != 2 {
+			return viol14("fault-stdout", p, e, "writing the result to stdout failed with %s (%d of %d bytes arrived) but exit status was %d, contract says 2 on any error; argv=%q", kind, len(res.Stdout), len(base.Res[i].Stdout), res.Code, p.Argv), log, info
+		}
+		if len(res.Stderr) == 0 {
+			return viol14("fault-stdout", p, e, "writing the result to stdout failed with %s, exit 2, but nothing on stderr", kind), log, info
+		}
+		return nil, log, info
+	case simos.FStderrEIO:
+		// a broken stderr loses messages; nothing else may change
+		if res.Code != base.Res[i].Code {
+			return viol14("fault-stderr", p, e, "with a broken stderr the exit status is %d instead of %d; argv=%q", res.Code, base.Res[i].Code, p.Argv), log, info
+		}
+		if res.Code != 2 && string(res.Stdout) != string(base.Res[i].Stdout) {
+			return viol14("fault-stderr", p, e, "with a broken stderr stdout differs; argv=%q", p.Argv), log, info
+		}
+		if same, why := fsEqual(flt.FSPost[i], base.FSPost[i]); !same {
+			return viol14("fault-stderr", p, e, "with a broken stderr the files differ: %s; argv=%q", why, p.Argv), log, info
+		}
+		return nil, log, info
 	case simos.FStdinEOF:
 		// indistinguishable from a shorter input: judge against the model on
 		// the bytes that were actually delivered
